@@ -20,6 +20,8 @@ type ModSet struct {
 	Arr  map[string]int
 	Why  string // reason for All
 	done bool
+	// Local: arrays written only through these local allocations (precise havoc)
+	Local map[string][]ssa.Value
 }
 
 func newModSet() *ModSet { return &ModSet{Arr: map[string]int{}} }
@@ -214,6 +216,9 @@ func (e *Engine) computeModSets() {
 					if isFreshBase(x.Addr) {
 						lvl = modFresh
 					}
+					if al, ok := rootOf(x.Addr).(*ssa.Alloc); ok && !al.Heap {
+						continue // a stack local of this function: invisible to callers
+					}
 					e.storeArrays(x.Addr, x.Val.Type(), func(n string) { m.add(n, lvl) })
 				case *ssa.MapUpdate:
 					mt := x.Map.Type().Underlying().(*types.Map)
@@ -228,6 +233,9 @@ func (e *Engine) computeModSets() {
 					// allocation zero-initialises: a fresh write
 					switch y := x.(type) {
 					case *ssa.Alloc:
+						if !y.Heap {
+							continue
+						}
 						t := deref(y.Type())
 						if isStruct(t) {
 							e.structArrays(t, func(n string) { m.add(n, modFresh) })
@@ -252,6 +260,14 @@ func (e *Engine) computeModSets() {
 			}
 		}
 	}
+	// ghost effects of definers
+	for name, c := range e.cs.Funcs {
+		if f, ok := e.funcs[name]; ok {
+			for _, ef := range c.Effects {
+				e.mods[f].add("GH:"+ef.Ghost, modOld)
+			}
+		}
+	}
 	// fixpoint
 	for changed := true; changed; {
 		changed = false
@@ -266,6 +282,18 @@ func (e *Engine) computeModSets() {
 			}
 		}
 	}
+	// functions declared (and verified) to write a ghost set only at fresh objects
+	for name, c := range e.cs.Funcs {
+		if f, ok := e.funcs[name]; ok {
+			for _, g := range c.FreshWrites {
+				if _, has := e.mods[f].Arr["GH:"+g]; has {
+					e.mods[f].Arr["GH:"+g] = modFresh
+				}
+			}
+		}
+	}
+	// the declaration must propagate: a caller whose only writers are fresh-writers is itself fresh unless it calls a definer
+	// (kept simple: callers need their own fresh_writes declaration)
 	// explicit modifies clauses override
 	for name, c := range e.cs.Funcs {
 		if f, ok := e.funcs[name]; ok && c.HasMod && c.Trusted != "" {
